@@ -47,9 +47,16 @@ def judge(ctx, status: str) -> list[dict]:
         else:
             v("H0", f"run aborted outside the reporters: {type(ctx.loop_exception).__name__}: {str(ctx.loop_exception)[:200]}",
               what="run_abort", exc=type(ctx.loop_exception).__name__)
+    disk_full = bool(ctx.extra.get("disk_full_fired"))
     for sid, exc in ctx.sched.thread_deaths:
         if "CassetteWriter" in sid:
+            if disk_full and exc.startswith("OSError"):
+                continue  # the injected ENOSPC: the writer may give up, the run may not
             v("R1", f"report writer thread died: {exc[:200]}", what="writer_thread_died", exc=exc.split(":")[0])
+    if status == "deadlock":
+        v("R1", "the run hangs: no thread can run and no timer is pending" + (" (after the cassette writer gave up on a full disk)" if disk_full else ""),
+          what="run_deadlocked", disk_full=disk_full)
+        return vs
 
     delivered = [e for _, e in ctx.delivered]
     finished = [e for e in delivered if isinstance(e, events.ScenarioFinished)]
@@ -82,7 +89,7 @@ def judge(ctx, status: str) -> list[dict]:
     preserve = bool(cfg.get("preserve_bytes"))
 
     # ------------------------------------------------------------------------------------ VCR
-    if "vcr" in formats and not aborted:
+    if "vcr" in formats and not aborted and not disk_full:
         path = os.path.join(report_dir, "vcr.yaml")
         doc = None
         try:
@@ -122,7 +129,7 @@ def judge(ctx, status: str) -> list[dict]:
                     v("R4", f"VCR entry {cid} ({r.request.method} {r.request.url[:80]}): {msg}", what="vcr_unfaithful", field=field)
                     break
     # ------------------------------------------------------------------------------------ HAR
-    if "har" in formats and not aborted:
+    if "har" in formats and not aborted and not disk_full:
         path = os.path.join(report_dir, "har.json")
         doc = None
         try:
